@@ -29,6 +29,21 @@ CHECKS["C05"] = dict(
          "not verified. Axioms: standard-library reals (sig_forall_dec, sig_not_dec, functional_extensionality_dep), classic, Uint63 primitives.",
     design="§6 C05")
 
+CHECKS["C06"] = dict(
+    technique="Coq proofs by induction over the tree (every topology, every date vector) on a hand-written polymorphic model; Paramcoq free theorem ties the exact rational run to the real model; device-move effects regenerated from source by an ast translator; exact-rational correspondence",
+    text="Theorems C06_ratio_valid / C06_ratio_roundtrip / C06_diff_valid / C06_diff_roundtrip / C06_branch_is_difference / "
+         "C06_branch_nonneg (prop/C06.v) hold for every rooted binary topology, every sampling-time vector (ties "
+         "included) and every parameter value in the domain; C06_kind_preserved holds for every sequence of "
+         "cpu()/cuda()/to() over effects regenerated from tree_model.py; C06_run_is_model is the free theorem that the "
+         "exact rational run equals the real-valued model. The model is tied to the code by exact-rational "
+         "correspondence on node_heights, branch_lengths(), transform(x), transform.inv(y) over all topologies <= 4 "
+         "(quick) / <= 6 (thorough) taxa plus random ones, single and batched.",
+    note="Trusted: Coq kernel; hand-written models Tree.v/M_height.v (index assignment, bounds, transforms; validated by "
+         "correspondence only); t_kind translator; dendropy parsing and torch indexing modelled not verified; batched = "
+         "map over rows is checked by correspondence, not proved; cuda() cannot be executed in this sandbox (translator + "
+         "theorem only). Axioms: standard-library reals + classic; Uint63 primitives for the BigQ run theorem.",
+    design="§6 C06")
+
 PENDING_REASON = "check not built yet in this session (build order in DESIGN.md §9); will be claimed once its theorem file and correspondence run clean"
 
 
